@@ -2,8 +2,8 @@
 package main
 
 import (
-	"errors"
 	"bytes"
+	"errors"
 	"fmt"
 	"os"
 	"os/exec"
